@@ -96,6 +96,12 @@ type biBootResult struct {
 }
 
 func biBoot(c biCfg, rc config.RedisConfig, inputName, runID string, s0 int64, presetName bool, srv *redisd.Server) (res biBootResult) {
+	return biBootWith(c, rc, inputName, runID, s0, presetName, func(string) *redisd.Server { return srv })
+}
+
+// biBootWith is biBoot for any topology: nodeOf returns the double that stores a key.
+func biBootWith(c biCfg, rc config.RedisConfig, inputName, runID string, s0 int64, presetName bool, nodeOf func(key string) *redisd.Server) (res biBootResult) {
+	srv := nodeOf(config.CheckpointKeyHashKey)
 	ids := []string{runID, biRunID2}
 	sy := &syncer{cfg: SyncerConfig{Output: rc}, logger: log.WithLogger("[verif] ")}
 	cli, err := client.NewRedis(rc)
@@ -108,6 +114,12 @@ func biBoot(c biCfg, rc config.RedisConfig, inputName, runID string, s0 int64, p
 		// keeps key names deterministic (NewBisyncCheckpointName uses crypto/rand)
 		if v := srv.Get(0, config.CheckpointKeyHashKey); v == nil {
 			srv.Put(0, config.CheckpointKeyHashKey, &redisd.Value{T: 'h', Hash: map[string][]byte{runID: []byte(biFixedCpName + inputName)}, HOrder: []string{runID}})
+			if rc.IsCluster() {
+				// a namespace whose mode marker is already stored (as after any earlier start):
+				// skips the legacy-mode inference, which scans 16384 slots
+				name := biFixedCpName + inputName
+				nodeOf(name).Put(0, name, &redisd.Value{T: 'h', Hash: map[string][]byte{"bisync_mode": []byte(c.Mode), "bisync_mode_mtime": []byte("1")}, HOrder: []string{"bisync_mode", "bisync_mode_mtime"}})
+			}
 		}
 	}
 	cpName, err := sy.resolveBisyncCheckpointNameWithClient(cli, ids, checkpoint.BisyncModeFromReplayMode(c.replayMode()), bisyncRecoverySlotsForConfig(rc))
@@ -120,7 +132,11 @@ func biBoot(c biCfg, rc config.RedisConfig, inputName, runID string, s0 int64, p
 		return
 	}
 	res.cpName = cpName
-	ro := NewRedisOutput(biOutputConfig(c, rc, inputName, runID, cpName))
+	ocfg := biOutputConfig(c, rc, inputName, runID, cpName)
+	if rc.IsCluster() {
+		ocfg.Parallelism = 2
+	}
+	ro := NewRedisOutput(ocfg)
 	res.ro = ro
 	sp, err := ro.StartPoint(context.Background(), ids)
 	if err != nil {
